@@ -304,6 +304,36 @@ Outcome Interp::exec(const Op &op) {
             out.mutating = true;
             obj->parameter("PADGRP", p);
         }
+        else if (k == "limit") {
+            // limit <kind> <value>: content at / beyond a capacity limit of the format, built through the public API
+            long long kind = op.arg(0), v = op.arg(1); if (v < 0) v = -v;
+            out.mutating = true;
+            auto mk = [&](const std::string &name, const std::string &desc) { ezc3d::ParametersNS::GroupNS::Parameter p(name, desc); p.set(std::vector<int>() = {1, 2, 3}); return p; };
+            switch (kind) {
+            case 0: obj->parameter("LIMITS", mk("DESCLEN", std::string(static_cast<size_t>(v), 'd'))); out.note = "param-description=" + std::to_string(v); break;
+            case 1: obj->parameter("LIMITS", mk(std::string(static_cast<size_t>(v), 'N'), "x")); out.note = "param-name=" + std::to_string(v); break;
+            case 2: obj->parameter(std::string(static_cast<size_t>(v), 'G'), mk("INGROUP", "")); out.note = "group-name=" + std::to_string(v); break;
+            case 3: { ezc3d::ParametersNS::GroupNS::Parameter p("DIMLEN"); std::vector<int> a(static_cast<size_t>(v), 5); p.set(a); obj->parameter("LIMITS", p); out.note = "dimension=" + std::to_string(v); break; }
+            case 4: { ezc3d::ParametersNS::GroupNS::Parameter p("STRLEN"); p.set(std::vector<std::string>() = {std::string(static_cast<size_t>(v), 's'), "t"}); obj->parameter("LIMITS", p); out.note = "string-length=" + std::to_string(v); break; }
+            case 5: { ezc3d::ParametersNS::GroupNS::Parameter p("INTVAL"); p.set(std::vector<int>() = {static_cast<int>(op.arg(1)), 0, -1}); obj->parameter("LIMITS", p); out.note = "int=" + std::to_string(op.arg(1)); break; }
+            case 6: for (long long i = 0; i < v; ++i) obj->point("LP" + std::to_string(i)); out.note = "points=" + std::to_string(v); break;
+            case 7: for (long long i = 0; i < v; ++i) obj->analog("LC" + std::to_string(i)); out.note = "channels=" + std::to_string(v); break;
+            case 8: {   // append v frames carrying the declared shape (same content, cheap)
+                Shape s = shapeOf(*obj); std::string note; ezc3d::DataNS::Frame f = buildFrame(s, 0, 99, note);
+                for (long long i = 0; i < v; ++i) obj->frame(f);
+                out.note = "frames+=" + std::to_string(v); break; }
+            case 9: {   // v parameters of about 500 bytes each: the parameter section grows to v/1.02 blocks
+                for (long long i = 0; i < v; ++i) { ezc3d::ParametersNS::GroupNS::Parameter p("BLK" + std::to_string(i), std::string(200, 'b')); p.set(std::vector<int>(140, static_cast<int>(i))); obj->parameter("BLOCKS", p); }
+                out.note = "block-params=" + std::to_string(v); break; }
+            case 10: { ezc3d::ParametersNS::GroupNS::Parameter p("NDIM"); std::vector<size_t> d(static_cast<size_t>(v), 1); p.set(std::vector<int>() = {4}, d); obj->parameter("LIMITS", p); out.note = "dimensions=" + std::to_string(v); break; }
+            case 12: {  // sub-frames per frame = v (POINT:RATE 1 Hz, ANALOG:RATE v Hz)
+                ezc3d::ParametersNS::GroupNS::Parameter pr("RATE"); pr.set(std::vector<float>() = {1.f}); obj->parameter("POINT", pr);
+                ezc3d::ParametersNS::GroupNS::Parameter ar("RATE"); ar.set(std::vector<float>() = {static_cast<float>(v)}); obj->parameter("ANALOG", ar);
+                out.note = "subframes=" + std::to_string(v); break; }
+            case 11: obj->parameter("LIMITS2", mk("G", "")); { /* group description cannot be set through c3d: covered via Group in a loaded file */ } out.note = "noop"; break;
+            default: out.skipped = true; out.mutating = false; break;
+            }
+        }
         else if (k == "lockg") { out.mutating = true; obj->lockGroup(groupNameOf(op.arg(0))); }
         else if (k == "unlockg") { out.mutating = true; obj->unlockGroup(groupNameOf(op.arg(0))); }
         else if (k == "fbuild") {
